@@ -255,6 +255,135 @@ def z5(run: Run, prog: Program):
     run.floor("Z5 calls scanned", n, 30, hard=True)
 
 
+# ---------------------------------------------------------------------------
+# Z6: layout of flat per-pair stores (writer and reader agree)
+
+def _pair_layout_of_producer(st, attr):
+    """'lower' / 'upper' (row-major triangle order) of a statement that fills
+    `self.<attr>` with one value per unordered node pair, None if it is not such
+    a statement, '?' if it is one in an unknown order."""
+    # self.X = M[np.triu_indices(N, k=1)] / np.tril_indices(N, k=-1)
+    if isinstance(st, ast.Assign) and any(ast.unparse(t) == f"self.{attr}"
+                                          for t in st.targets):
+        for c in ast.walk(st.value):
+            if isinstance(c, ast.Call) and ast.unparse(c.func) in (
+                    "np.triu_indices", "np.tril_indices"):
+                k = next((kw.value for kw in c.keywords if kw.arg == "k"),
+                         c.args[1] if len(c.args) > 1 else None)
+                kv = ast.literal_eval(k) if k is not None and isinstance(
+                    k, (ast.Constant, ast.UnaryOp)) else None
+                if ast.unparse(c.func).endswith("triu_indices") and kv == 1:
+                    return "upper"
+                if ast.unparse(c.func).endswith("tril_indices") and kv == -1:
+                    return "lower"
+                return "?"
+        return None
+    # for i in range(N): for j in range(i): self.X = np.append(self.X, f(i, j))
+    if isinstance(st, ast.For) and isinstance(st.target, ast.Name) and \
+            isinstance(st.iter, ast.Call) and ast.unparse(st.iter.func) == "range":
+        i = st.target.id
+        for inner in st.body:
+            if not (isinstance(inner, ast.For) and isinstance(inner.target, ast.Name) and
+                    isinstance(inner.iter, ast.Call) and
+                    ast.unparse(inner.iter.func) == "range"):
+                continue
+            fills = [a for a in ast.walk(inner) if isinstance(a, ast.Assign) and any(
+                ast.unparse(t) == f"self.{attr}" for t in a.targets) and
+                "append" in ast.unparse(a.value)] + \
+                [c for c in ast.walk(inner) if isinstance(c, ast.Call) and
+                 ast.unparse(c.func) == f"self.{attr}.append"]
+            if not fills:
+                continue
+            args = [ast.unparse(a) for a in inner.iter.args]
+            if len(st.iter.args) == 1 and args == [i]:
+                return "lower"
+            if len(st.iter.args) == 1 and len(args) == 2 and \
+                    args[0].replace(" ", "") in (f"{i}+1", f"1+{i}") and \
+                    args[1] == ast.unparse(st.iter.args[0]):
+                return "upper"
+            return "?"
+    return None
+
+
+def _pair_layout_of_index(e):
+    """'lower' for a*(a-1)//2 + b, 'upper' for a*N - a*(a+1)//2 + (b - a - 1)
+    (any order of the summands), else '?'."""
+    from .cmodel import Poly
+    txt = ast.unparse(e).replace(" ", "")
+    names = sorted({n.id for n in ast.walk(e) if isinstance(n, ast.Name)})
+    for a in names:
+        for b in names:
+            if a == b:
+                continue
+            if txt in (f"{a}*({a}-1)//2+{b}", f"{b}+{a}*({a}-1)//2",
+                       f"({a}-1)*{a}//2+{b}", f"{b}+({a}-1)*{a}//2",
+                       f"{a}*({a}-1)/2+{b}"):
+                return "lower"
+            for n in names:
+                if n in (a, b):
+                    continue
+                if txt in (f"{a}*{n}-{a}*({a}+1)//2+{b}-{a}-1",
+                           f"{a}*{n}-{a}*({a}+1)//2+({b}-{a}-1)",
+                           f"{n}*{a}-{a}*({a}+1)//2+{b}-{a}-1"):
+                    return "upper"
+    return "?"
+
+
+def z6(run: Run, prog: Program):
+    # the rule knows its two forms: a built-in positive example on every run
+    ex_w = ast.parse("self.S = ER[np.triu_indices(self.N, k=1)]").body[0]
+    ex_r = ast.parse("self.S[i * (i - 1) // 2 + j]").body[0].value
+    if _pair_layout_of_producer(ex_w, "S") != "upper" or \
+            _pair_layout_of_index(ex_r.slice) != "lower":
+        raise AnalysisError("Z6 self-test: the layout recognisers no longer work")
+    rn = prog.classes["ResNetwork"]
+    # flat pair stores: attributes some statement fills in pair order
+    stores = {}
+    for m in rn.methods.values():
+        for st in ast.walk(m.node):
+            for tgt in ([t for t in st.targets] if isinstance(st, ast.Assign) else []):
+                if isinstance(tgt, ast.Attribute) and ast.unparse(tgt.value) == "self":
+                    stores.setdefault(tgt.attr, [])
+    n_prod = n_read = 0
+    for attr in sorted(stores):
+        layouts = []
+        for m in rn.methods.values():
+            for st in ast.walk(m.node):
+                lay = _pair_layout_of_producer(st, attr)
+                if lay is not None:
+                    layouts.append((lay, m, st))
+        if not layouts:
+            continue
+        n_prod += len(layouts)
+        reads = [(m, n) for m in rn.methods.values() for n in ast.walk(m.node)
+                 if isinstance(n, ast.Subscript) and isinstance(n.ctx, ast.Load) and
+                 ast.unparse(n.value) == f"self.{attr}" and
+                 not isinstance(n.slice, (ast.Slice, ast.Constant))]
+        for m, n in reads:
+            n_read += 1
+            want = _pair_layout_of_index(n.slice)
+            have = {l for l, _, _ in layouts}
+            if want == "?" or "?" in have:
+                run.unknowns.append(f"Z6: {m.qualname}: `{ast.unparse(n)[:60]}` reads the "
+                                    f"pair store `{attr}` by position; the index formula "
+                                    f"or the producer's order is not recognised")
+                run.oblige("Z6", f"{m.qualname}:{attr}@{n.lineno}", True, nontrivial=False)
+                continue
+            ok = have == {want}
+            run.oblige("Z6", f"{m.qualname}:{attr}@{n.lineno}", ok)
+            if not ok:
+                lay, pm, pst = next(x for x in layouts if x[0] != want)
+                run.add("Z6", f"{m.qualname}/{attr}/layout",
+                        f"{m.module.relpath}:{n.lineno}",
+                        f"{m.qualname} reads `{ast.unparse(n)}`, the position of a pair "
+                        f"in row-major *{want}*-triangle order, but {pm.qualname} "
+                        f"({pm.module.relpath}:{pst.lineno}) fills `{attr}` in row-major "
+                        f"*{lay}*-triangle order: for N >= 4 the value of another node "
+                        f"pair is returned")
+    run.oblige("Z6", "ResNetwork:pair-stores", True, nontrivial=False,
+               sample={"producers": n_prod, "indexed_reads": n_read})
+
+
 def check(run: Run, prog: Program, cy: CyProgram, sites):
     run.rule("Z1", "update_resistances stores the resistances, then rebuilds the "
              "admittance (on the network's links) and then R, in that order")
@@ -262,6 +391,8 @@ def check(run: Run, prog: Program, cy: CyProgram, sites):
     run.rule("Z3", "cache/memo coherence of ResNetwork under update_resistances "
              "(C01 rules restricted to this class)")
     run.rule("Z5", "no conjugating product in ResNetwork's defining sums")
+    run.rule("Z6", "a positional read of a flat per-pair store uses the triangle order "
+             "in which the store is filled")
     run.explanation = (
         "Structural clauses of 'all of them follow a change of the resistances'. "
         "The circuit laws themselves (metric, Foster, series/parallel) are NOT "
@@ -272,3 +403,4 @@ def check(run: Run, prog: Program, cy: CyProgram, sites):
     run.floor("Z2 call sites", n, 1)
     z3(run, prog)
     z5(run, prog)
+    z6(run, prog)
